@@ -120,6 +120,8 @@ func c05Run(c *run.Ctx, ci int, k c05Case) {
 	grants := []string{"authorization_code", "implicit", "password", "urn:ietf:params:oauth:grant-type:device_code", "refresh_token"}
 	w.AddClient(world.ClientSpec{ID: "c5-full", Secret: "s5", RedirectURIs: []string{"https://c5.example/cb"}, GrantTypes: grants, ResponseTypes: world.AllResponseTypes, Scopes: registered, Audience: allAud})
 	w.AddClient(world.ClientSpec{ID: "c5-norefresh", Secret: "s5n", RedirectURIs: []string{"https://c5n.example/cb"}, GrantTypes: grants[:4], ResponseTypes: world.AllResponseTypes, Scopes: registered, Audience: allAud})
+	w.AddClient(world.ClientSpec{ID: "C5-FULL", Secret: "s5U", RedirectURIs: []string{"https://c5u.example/cb"}, GrantTypes: grants, ResponseTypes: world.AllResponseTypes, Scopes: registered, Audience: allAud})
+	w.AddClient(world.ClientSpec{ID: "C5-NOREFRESH", Secret: "s5NU", RedirectURIs: []string{"https://c5nu.example/cb"}, GrantTypes: grants, ResponseTypes: world.AllResponseTypes, Scopes: registered, Audience: allAud})
 	w.AddClient(world.ClientSpec{ID: "c5-other", Secret: "s5o", RedirectURIs: []string{"https://c5o.example/cb"}, GrantTypes: grants, ResponseTypes: world.AllResponseTypes, Scopes: registered, Audience: allAud})
 	s := sim.New(w, c, "refresh-cross-client", "refresh-issued-against-rule", "payload", "refresh-after-registration-narrowed", "rightful-refresh-refused", "refresh-without-client-grant", "dead-unexpected", "requested-scope-changed", "requested-audience-changed")
 	caseID := fmt.Sprint(ci)
@@ -253,6 +255,10 @@ func c05Run(c *run.Ctx, ci int, k c05Case) {
 	as := ""
 	if k.Present == "foreign" {
 		as = "c5-other"
+		if ci%3 == 0 {
+			// a different registered client whose id differs from the owner's in letter case only
+			as = strings.ToUpper(k.Client)
+		}
 	}
 	tok := g.Latest
 	if narrowed && as == "" {
